@@ -96,6 +96,11 @@ def gen(seed, tier):
             cases.append({"op": "init", "init": ["inject", m, ["standard"]], "k": k, "seed": m})
             if m % 2 == 0:
                 cases.append({"op": "init", "init": ["inject", m, ["inject", 1, ["full"]]], "k": k, "seed": m})
+            # one initialiser object asked several times (two runs sharing it; a larger request before a smaller one)
+            for prior in ([k + 2], [k + 3, 1], [1], [m]):
+                cases.append({"op": "init", "init": ["inject", m, ["standard"]], "k": k, "seed": m, "prior": prior})
+        for ini in (["standard"], ["ramped"], ["inject", 3, ["inject", 2, ["grow"]]]):
+            cases.append({"op": "init", "init": ini, "k": k, "seed": k, "prior": [k + 2, 1]})
     return cases
 
 
